@@ -9,8 +9,9 @@
    refinement part says the returned indices are EXACTLY the image of the
    abstract first-appearance table under [slot_plain] / [slot_pre]. *)
 From Coq Require Import ZArith List Bool Arith.
-From SK Require Import Model.Base Model.Store Spec.Store Proofs.Store
-     Gen.Exprs Gen.Params.
+From SK Require Import Model.Base Model.Skel Model.Stm Model.SequenceSk
+     Model.Store Model.StoreSk Spec.Store Proofs.Store Proofs.StoreSk
+     Gen.Exprs Gen.Params Gen.SkelTree.
 Import ListNotations.
 Open Scope Z_scope.
 
@@ -23,6 +24,108 @@ Proof. intros. reflexivity. Qed.
 (* T1: the default block size meets the hypothesis of the theorems *)
 Theorem C15_default_block_size : 1 <= PREALLOC_BLOCK_SIZE.
 Proof. vm_compute. discriminate. Qed.
+
+(* ---- T1: the model functions ARE the extracted trees (Gen/SkelTree.v,
+   regenerated from results_store.py on every run; Model/StoreSk.v) ------- *)
+(* (a) calls, returns, raises and if / loop nesting (reads and writes
+   erased): in _add_to_store the None test comes first, the reverse-map hit
+   returns before any allocation, then _allocate_next; in _allocate_next the
+   equality scan over data precedes the allocation, the block walk leaves at
+   the first free index (else raises); add calls _add_to_store three times *)
+Theorem C15_add_to_store_shape :
+  calls_only_list tk_add_to_store = expected_add_to_store.
+Proof. vm_compute. reflexivity. Qed.
+
+Theorem C15_allocate_next_shape :
+  calls_only_list tk_allocate_next = expected_allocate_next.
+Proof. vm_compute. reflexivity. Qed.
+
+Theorem C15_allocations_shape :
+  calls_only_list tk_allocations = expected_allocations.
+Proof. vm_compute. reflexivity. Qed.
+
+Theorem C15_store_add_shape :
+  calls_only_list tk_store_add = expected_store_add.
+Proof. vm_compute. reflexivity. Qed.
+
+(* sync: under the lock, first the data loop (one guarded write per item),
+   then the value / tag / sequence-id merges, in that order; unproxy: each
+   of the four dicts re-assigned under the lock; preallocate: read, read,
+   write of the pointer under the lock *)
+Theorem C15_sync_tree : tk_sync = expected_sync.
+Proof. vm_compute. reflexivity. Qed.
+
+Theorem C15_unproxy_writes :
+  writes_only tk_unproxy_results = expected_unproxy_writes.
+Proof. vm_compute. reflexivity. Qed.
+
+Theorem C15_preallocate_tree : tk_preallocate = expected_preallocate.
+Proof. vm_compute. reflexivity. Qed.
+
+(* (b) walking the extracted tree over the model's state - every event the
+   model operation it stands for, every `if` decided by the model's
+   condition and reading exactly the cells that condition is about, every
+   loop "first element passing the test" - IS the model function, for every
+   store state and every argument.  The four compose: add -> _add_to_store
+   -> _allocate_next -> allocations. *)
+Theorem C15_allocations_is_tree : forall s,
+  run_allocations tk_allocations s
+  = Some (allocations s, allocations_value (allocations s)).
+Proof.
+  intros [d vs ts ss p bz al ps ng].
+  unfold allocations, allocations_value, alloc_needed, grant.
+  destruct p; [|vm_compute; reflexivity].
+  destruct al as [a|]; [|vm_compute; reflexivity].
+  cbv -[rollover dmem range lenZ last Z.to_nat].
+  destruct (rollover (lenZ d) bz (dmem (last a 0) d)); reflexivity.
+Qed.
+
+(* ([1 <= bsz s]: with an empty block the source would iterate over nothing
+   and raise where the model takes the len(data) path; block sizes < 1 are
+   outside the property) *)
+Theorem C15_allocate_next_is_tree : forall s v, 1 <= bsz s ->
+  run_allocate_next tk_allocate_next s v = Some (allocate_next s v).
+Proof.
+  intros s v Hb. unfold run_allocate_next, allocate_next, tk_allocate_next.
+  rewrite scan_find. cbn.
+  destruct (find (fun p : Z * Z => v =? snd p) (data s)) as [[i w]|] eqn:Ef;
+    cbn; [reflexivity|].
+  destruct (allocations_value (allocations s)) as [[|i0 r]|] eqn:E1; cbn.
+  - reflexivity.
+  - destruct (allocations_twice_truthy s i0 r Hb E1) as [i1 [r1 E2]].
+    rewrite E2. cbn.
+    destruct (if negb (dmem i1 (data (allocations (allocations s))))
+              then Some i1
+              else find (fun i => negb (dmem i (data (allocations
+                                                        (allocations s))))) r1)
+      eqn:Ef2; cbn; reflexivity.
+  - reflexivity.
+Qed.
+
+Theorem C15_add_to_store_is_tree : forall s n x,
+  run_add_to_store tk_add_to_store s n x = Some (add_to_store s n x).
+Proof.
+  intros s n x. unfold run_add_to_store, add_to_store, tk_add_to_store.
+  destruct x as [v|]; [|vm_compute; reflexivity].
+  cbv -[dmem dget get_ns set_ns dset allocate_next]. unfold dmem.
+  destruct (dget v (get_ns s n)) as [i|] eqn:Eg.
+  - cbv -[dget get_ns]. rewrite ?Eg. reflexivity.
+  - cbv -[dmem dget get_ns set_ns dset allocate_next].
+    destruct (allocate_next s v) as [[s1 i]|]; reflexivity.
+Qed.
+
+(* value first, then tag, then sequence id - each with its own reverse map *)
+Theorem C15_add_is_tree : forall s o,
+  run_store_add tk_store_add s o = Some (add s o).
+Proof.
+  intros s [[tag sq] value]. unfold run_store_add, add, tk_store_add.
+  cbv -[add_to_store].
+  destruct (add_to_store s NsValue value) as [[s1 vi]|]; [|reflexivity].
+  cbv -[add_to_store].
+  destruct (add_to_store s1 NsTag tag) as [[s2 ti]|]; [|reflexivity].
+  cbv -[add_to_store].
+  destruct (add_to_store s2 NsSeq sq) as [[s3 si]|]; reflexivity.
+Qed.
 
 (* plain store (ResultStoreSimple without preallocator): every history
    succeeds, refines the table with slot k = k (so a new value gets index
@@ -122,6 +225,10 @@ Example C15_example :
 Proof. vm_compute. repeat split; reflexivity. Qed.
 
 Print Assumptions C15_rollover_is_source.
+Print Assumptions C15_allocations_is_tree.
+Print Assumptions C15_allocate_next_is_tree.
+Print Assumptions C15_add_to_store_is_tree.
+Print Assumptions C15_add_is_tree.
 Print Assumptions C15_plain_store.
 Print Assumptions C15_prealloc_store.
 Print Assumptions C15_index_stable_forever_plain.
